@@ -19,7 +19,7 @@ from ast import (
 from collections import OrderedDict
 from functools import partial
 from itertools import chain
-from os import path
+from os import path, remove, replace
 from textwrap import indent
 
 from black import Mode, format_str
@@ -562,13 +562,26 @@ def file(node, filename, mode="a", skip_black=False):
             ),
         )
     if "a" in mode and path.isfile(filename):
-        # Don't glue onto an unterminated last line
         with open(filename, "rt") as f:
             existing = f.read()
-        if existing and not existing.endswith("\n"):
-            src = "\n{src}".format(src=src)
-    with open(filename, mode) as f:
-        f.write(src)
+        # Don't glue onto an unterminated last line
+        src = "{existing}{nl}{src}".format(
+            existing=existing,
+            nl="" if not existing or existing.endswith("\n") else "\n",
+            src=src,
+        )
+
+    # Write a sibling file then rename it over the target, so that a failure at any point
+    # leaves the target either as it was or completely written; never truncated or half-written
+    tmp_filename = "{filename}.doctrans.tmp".format(filename=filename)
+    try:
+        with open(tmp_filename, "wt") as f:
+            f.write(src)
+        replace(tmp_filename, filename)
+    except BaseException:
+        if path.isfile(tmp_filename):
+            remove(tmp_filename)
+        raise
 
 
 def function(
